@@ -4,7 +4,7 @@ Technique: per-byte case exclusion.  Each quoting loop is re-analysed once per c
 compares the current byte - and, for rfc1738, the flags word - with constants is evaluated for that b, integer casts applied by
 bit width), and the set of reachable output events (raw byte copy / constant bytes / hex pair / bulk copy) is read off the CFG."""
 from .. import expr as E
-from ..flow import ev_call, ev_assign, ev_any
+from ..flow import ev_exit, ev_call, ev_assign, ev_any
 
 CR, LF, BS, DQ, PCT = 13, 10, 92, 34, 37
 CTL_HIGH = set(range(0, 32)) | set(range(127, 256))
@@ -362,6 +362,28 @@ def run(ck):
     sizes = [ev["rhs"] for b in rfn.blocks.values() for ev in b["ev"] if ev_assign("bufsize", ops=("=",))(ev)]
     ck.need(len(sizes) == 1 and alloc_mult(sizes[0], rfn.params[0]["d"]) is not None, "C34: rfc1738_do_escape bufsize is no longer strlen(url)*M + k")
     expansion("G4.url-size", ck, rfn, esc, alloc_mult(sizes[0], rfn.params[0]["d"]))
+    ck.rule("G5 one record per transaction: ConnStateData::terminateAll, when it terminates transactions that may leave unparsed client bytes behind (request body, "
+            "CONNECT, TLS handshake: the local naming that kind of input is non-null), leaves with inBuf empty -- on every path from that test either inBuf.clear() is "
+            "passed or inBuf.isEmpty() was established true; otherwise checkLogging() in swanSong() logs those bytes as a second, bogus transaction record")
+    cs2 = ck.facts(["src/client_side.cc"], whole=False)
+    ta = cs2.fn("ConnStateData::terminateAll")
+    kinds = sorted(n for n, ds in ck.local_defs(ta).items() if ds and all(E.strip(d).get("k") == "cond" and any(x.get("k") == "str" for x in E.walk(d)) and any(x.get("k") == "null" for x in E.walk(d)) for d in ds))
+    ck.need(len(kinds) == 1, "C34: terminateAll no longer classifies the leftover input in one local (found %s)" % kinds)
+    leftover = E.m_is_ref(kinds[0])
+    inbuf_empty = E.M(lambda t: E.strip(t).get("k") == "call" and E.strip(t).get("f") == "SBuf::isEmpty" and E.m_is_mem("inBuf")(E.strip(t).get("o")), "inBuf.isEmpty()")
+    clear = lambda ev: ev.get("e") == "call" and E.strip(ev["x"]).get("f") == "SBuf::clear" and E.m_is_mem("inBuf")(E.strip(ev["x"]).get("o"))
+    edges = ck.trigger_edges(ta, leftover, True)
+    ck.need(edges, "C34: terminateAll no longer tests whether leftover input has to be forgotten")
+    for (bid, lab, to) in edges:
+        fl5 = ck.flow(ta, start=to, markers={"cleared": clear}, track_markers=["cleared"], track_atoms={"empty": inbuf_empty})
+        bad = [st for st in fl5.find(ev_exit(("ret", "fall"))) if not (st.env.get("#cleared") == 1 or st.tracked("empty") is True)]
+        where = ta.where(ta.blocks[bid]["term"].get("l"))
+        if not bad:
+            ck.ok("G5.leftover-input-forgotten", where, "terminateAll: leftover body/CONNECT/TLS bytes are cleared (or inBuf is known empty) on every path")
+        else:
+            ck.violation("G5.leftover-input-forgotten", "G5|terminateAll|leftover-bytes-kept", bad[0].where(),
+                         "terminateAll can return with unparsed bytes of the terminated transaction still in inBuf: swanSong()/checkLogging() then writes a second "
+                         "`error:transaction-end-before-headers` record for them", fl5.witness(bad[0]))
     ck.assume("exactly-one-record-per-transaction is not decided; reversibility is decided only as 'escape introducers are themselves escaped'; "
               "width truncation (%.*s) of an already quoted value is not analysed; rfc1738 unsafe/reserved character tables are not evaluated")
 
